@@ -246,29 +246,27 @@ bool splinetable<Alloc>::read_fits_core(fitsfile* fits, const std::string& fileP
 				
 				keylen = strlen(key) + 1;
 				valuelen = strlen(value) + 1;
-				aux[i] = allocate<char_ptr>(2);
-				aux[i][0] = aux[i][1] = NULL;
-				aux[i][0] = allocate<char>(keylen);
-				aux[i][1] = allocate<char>(valuelen);
-				std::copy(key,key+keylen,aux[i][0]);
 				//remove stupid quotes mandated by FITS, but not removed by cfitsio on reading
 				//Note that we do not attempt to remove whitespace, because we cannot 
 				//distinguish whitespace included by the user and whitespace pointlessly
 				//added by FITS.
-				if(valuelen>1 && value[0]=='\''){
-					if(valuelen>2 && value[valuelen-2]=='\''){ //remove a trailing quote also
-						std::copy(value+1,value+valuelen-2,aux[i][1]);
-						aux[i][1][valuelen-3]='\0';
-					}
-					else{ //just remove an opening quote
-						std::copy(value+1,value+valuelen-1,aux[i][1]);
-						aux[i][1][valuelen-2]='\0';
-					}
+				const char* vbegin = value;
+				int vlen = valuelen-1; //length of the part to keep, without terminator
+				if(vlen>0 && value[0]=='\''){
+					vbegin++; //remove the opening quote
+					vlen--;
+					if(vlen>0 && value[valuelen-2]=='\'')
+						vlen--; //remove a trailing quote also
 				}
-				else{
-					std::copy(value,value+valuelen,aux[i][1]);
-					aux[i][1][valuelen-1]='\0';
-				}
+				aux[i] = allocate<char_ptr>(2);
+				aux[i][0] = aux[i][1] = NULL;
+				aux[i][0] = allocate<char>(keylen);
+				//allocate exactly what is stored: the storage is later released
+				//with the length of the string it holds
+				aux[i][1] = allocate<char>(vlen+1);
+				std::copy(key,key+keylen,aux[i][0]);
+				std::copy(vbegin,vbegin+vlen,aux[i][1]);
+				aux[i][1][vlen]='\0';
 				i++;
 			}
 		} else {
